@@ -77,4 +77,33 @@ example : expectDispatch exPats (unitsOf ((exCtx.buf.drop 0).take 8)) =
 example : dispatchTrace ((parse exCtx 0 8).1.events.drop exCtx.events.length) =
     [.handler 7 [65,58,66], .handler 8 [65,58,67], .error (-113) (some [88])] := by decide +kernel
 
+/-! ### the handler can recover the matched entry: tag and pattern test -/
+
+/-- SCPI_CmdTag inside a handler: the tag of the matched entry -/
+theorem handler_sees_tag (h : HState) (cmd : Cmd) (hd : h.done = false) (hc : h.c.cur = some cmd) :
+    (runOp h .iTag).c.events = h.c.events ++ [Ev.tag cmd.tag] := by
+  simp [runOp, hd, hc, emit]
+
+/-- SCPI_IsCmd inside a handler (the "pattern test"): for a matched entry whose pattern belongs to the grammar of C03 and a
+header text over the header alphabet, the answer is membership of the text in the language of THAT entry's pattern -/
+theorem handler_pattern_test (h : HState) (cmd : Cmd) (hd : h.done = false) (hc : h.c.cur = some cmd)
+    (p : Pattern.Pat) (hp : Pattern.parsePattern cmd.pattern = some p) (hwf : Pattern.wellFormed p.kws = true)
+    (s : Bytes) (hs : (s.takeWhile (· ≠ 0)).all Props.C03.headerAlphabet = true) :
+    (runOp h (.iIsCmd s)).c.events = h.c.events ++ [Ev.test (!(Pattern.accepts p (s.takeWhile (· ≠ 0))).isEmpty)] := by
+  have hm := (Props.C03.match_iff_language cmd.pattern p hp hwf (s.takeWhile (· ≠ 0)) hs).1
+  simp only [runOp, hd, hc, emit, Bool.false_eq_true, if_false, hm]
+
+/-- SCPI_Match(pattern, text, len): membership of the text in the language of the given pattern, whatever the context -/
+theorem api_match (h : HState) (hd : h.done = false) (pat : Bytes) (p : Pattern.Pat)
+    (hp : Pattern.parsePattern pat = some p) (hwf : Pattern.wellFormed p.kws = true)
+    (s : Bytes) (hs : s.all Props.C03.headerAlphabet = true) :
+    (runOp h (.iMatch pat s)).c.events = h.c.events ++ [Ev.test (!(Pattern.accepts p s).isEmpty)] := by
+  have hm := (Props.C03.match_iff_language pat p hp hwf s hs).1
+  simp only [runOp, hd, emit, Bool.false_eq_true, if_false, hm]
+
+-- on literal bytes: inside the handler of "A:B", the pattern test accepts "a:b" and refuses "A:C"
+example : (runOp { c := { exCtx with cur := some ⟨[65,58,66], 7, []⟩ } } (.iIsCmd [97,58,98])).c.events = [Ev.test true] ∧
+    (runOp { c := { exCtx with cur := some ⟨[65,58,66], 7, []⟩ } } (.iIsCmd [65,58,67])).c.events = [Ev.test false] := by
+  decide +kernel
+
 end ScpiVerif.Props.C02
